@@ -59,3 +59,80 @@ Example C17_push_example_error :
   load_multi 100 (map inl evs ++ [inr (PErr 7 {| m_index := 3; m_line := 1; m_col := 3 |})])
   = LFail (PErr 7 {| m_index := 3; m_line := 1; m_col := 3 |}) (rev evs).
 Proof. reflexivity. Qed.
+
+(* ------------------------------------------------------------------------------------------------------------
+   Repeated load(recv, multi = false).  Model: Model/Lazy.v - the LAZY pipeline over the string input (the parser
+   pulls tokens from the scanner on demand, through its one-token cache), and Parser::load(.., false) on top of it
+   with the three scanner observations it reads: stream_started(), stream_ended(), mark(). *)
+Require Import SBase SFetch Pipe Lazy ScanRelTop LazyRead LazyFusion LazyScan LazyLoad.
+
+(* T1 (fusion).  For EVERY text the lazy pipeline delivers exactly what the batch pipeline of Model/Pipe.v delivers:
+   the same events with the same spans, and the same verdict.  Everything proved about [run_str] is a statement
+   about the lazy coupling that the implementation has. *)
+Theorem C17_lazy_is_batch : forall text : list N, lazy_run_str text = run_str text.
+Proof. exact lazy_is_batch. Qed.
+Print Assumptions C17_lazy_is_batch.
+
+(* What makes the model lazy.  A successful step of the state machine has looked at a prefix [c] of its token list
+   and at nothing behind it: it does the same on every list that starts with [c], and the cache it leaves is empty,
+   untouched, or the last token of [c]. *)
+Theorem C17_step_reads_prefix : forall p ev q, state_machine p = Parser.Ok (ev, q) ->
+  exists c, p_toks p = c ++ p_toks q /\ cpost (p_token p) c (p_token q)
+            /\ forall y, state_machine (rd p (c ++ y)) = Parser.Ok (ev, rd q y).
+Proof. exact state_machine_reads. Qed.
+Print Assumptions C17_step_reads_prefix.
+
+(* Hence a token is pulled from the scanner only if the step looks at it: if the step asks for more on the tokens
+   pulled so far and succeeds with one more, nothing is left unread - between steps the parser holds its one-token
+   cache and nothing else. *)
+Theorem C17_step_holds_one_token : forall p t ev q,
+  state_machine p = Parser.Err PErrScan -> state_machine (ext [t] p) = Parser.Ok (ev, q) -> p_toks q = [].
+Proof. exact step_lean. Qed.
+Print Assumptions C17_step_holds_one_token.
+
+(* The scanner half, for every input type, every state satisfying the queue invariant (which holds initially and
+   is preserved): Scanner::next_token sets stream_end_produced exactly when the token it hands out is StreamEnd,
+   and then Scanner::mark() IS the position of that token; once a token has been handed out stream_started() holds. *)
+Theorem C17_stream_end_is_at_the_mark : forall (I : Type) (ops : InputOps I) (F : nat) (s s' : sc I) (t : token),
+  SEInv s -> SSInv s -> next_token ops F s = SBase.Ok (Some t, s') ->
+  sc_stream_end s = false /\ SEInv s' /\ sc_stream_start s' = true /\
+  (if is_se (snd t) then sc_stream_end s' = true /\ fst t = span_empty (sc_mark s') else sc_stream_end s' = false).
+Proof. exact (@next_token_se). Qed.
+Print Assumptions C17_stream_end_is_at_the_mark.
+
+(* T2.  For EVERY text: the calls of repeated load(recv, false) (the driver of the harness: until an error, or until
+   StreamEnd has been delivered) together deliver exactly the events of the iteration, WITH their spans, and end with
+   its verdict - in particular the StreamEnd that a later call delivers through the stream_ended() shortcut, at
+   Span::empty(scanner.mark()), is the iteration's StreamEnd event; load never reports an error of its own
+   (sites 100, 101) and never reaches unreachable!() / assert_eq!. *)
+Theorem C17_single_load_is_iteration : forall text : list N,
+  let r := load_repeated_str text in (concat (fst r), snd r) = run_str text.
+Proof. exact single_load_is_iteration. Qed.
+Print Assumptions C17_single_load_is_iteration.
+
+(* T3.  For EVERY text: each call delivers StreamEnd or exactly one document (DocumentStart, the events of one node,
+   DocumentEnd; accepted by the event grammar from and back to the top level), preceded by StreamStart on the first
+   call; only the call that fails may deliver something else (the events before the error). *)
+Theorem C17_single_load_one_document_per_call : forall text : list N,
+  Shapes true (snd (load_repeated_str text)) (fst (load_repeated_str text)).
+Proof. exact single_load_one_document_per_call. Qed.
+Print Assumptions C17_single_load_one_document_per_call.
+
+(* Non-vacuity: 'a\n--- b\n' is delivered in three calls; '[\n' fails in the first. *)
+Example C17_single_example :
+  (map (map fst) (fst (load_repeated_str [97;10;45;45;45;32;98;10]%N)), snd (load_repeated_str [97;10;45;45;45;32;98;10]%N))
+  = ([[EStreamStart; EDocumentStart false; EScalar [97%N] Plain 0 None; EDocumentEnd];
+      [EDocumentStart true; EScalar [98%N] Plain 0 None; EDocumentEnd];
+      [EStreamEnd]], PDone).
+Proof. vm_compute. reflexivity. Qed.
+Example C17_single_example_error :
+  (map (map fst) (fst (load_repeated_str [91;10]%N)), snd (load_repeated_str [91;10]%N))
+  = ([[EStreamStart; EDocumentStart false; ESequenceStart 0 None]], PParseErr 11 {| m_index := 2; m_line := 2; m_col := 0 |}).
+Proof. vm_compute. reflexivity. Qed.
+(* the shortcut is taken: after the first call on 'a\n' the scanner has handed out StreamEnd *)
+Example C17_shortcut_taken :
+  match lz_load_single (lazy_K [97;10]%N) (lazy_F [97;10]%N) 100 (lz_init [97;10]%N false) [] with
+  | ZDone _ z => sc_stream_end (lz_sc z) = true /\ p_state (lz_p z) = SDocumentStart
+  | _ => False
+  end.
+Proof. vm_compute. split; reflexivity. Qed.
